@@ -100,3 +100,21 @@ def stable_hash(*parts) -> str:
         m.update(str(p).encode())
         m.update(b"\x00")
     return m.hexdigest()[:12]
+
+
+def classify_text_diff(a, b) -> str:
+    """Coarse class of the difference between two compilation results (used to keep the known-finding
+    key of the StaticMemory allocator leak narrow): "define-lines-only" when every differing line is a
+    `#define <buffer> <slot>` line (the slot a register-file memory handed out), else "other"."""
+    def lines(x):
+        if isinstance(x, (tuple, list)):
+            x = "\n".join(str(t) for t in x)
+        return str(x).splitlines()
+
+    la, lb = lines(a), lines(b)
+    if len(la) != len(lb):
+        return "other"
+    diff = [(p, q) for p, q in zip(la, lb) if p != q]
+    if diff and all(p.lstrip().startswith("#define ") and q.lstrip().startswith("#define ") for p, q in diff):
+        return "define-lines-only"
+    return "other"
